@@ -124,7 +124,7 @@ def tracker_runs(r, quick):
 
 
 def run():
-    chk = Check("C15", props_modules=["GFO.Props.C15", "GFO.Props.LocalRuns", "GFO.Props.PopRuns", "GFO.Props.EvoRuns", "GFO.Props.PatternRuns", "GFO.Props.PowellRuns", "GFO.Props.SimplexRuns", "GFO.Gen.TrackerGenCheck"], gen_steps=(translators.gen_tracker,))
+    chk = Check("C15", props_modules=["GFO.Props.C15", "GFO.Props.LocalRuns", "GFO.Props.PopRuns", "GFO.Props.EvoRuns", "GFO.Props.PatternRuns", "GFO.Props.PowellRuns", "GFO.Props.SimplexRuns", "GFO.Props.DirectRuns", "GFO.Gen.TrackerGenCheck"], gen_steps=(translators.gen_tracker,))
     chk.build_and_audit()
     r = C.rng("C15")
     quick = C.tier() != "thorough"
@@ -145,5 +145,6 @@ def run():
     localgen.add_pattern_to(chk, C.rng("C15-pattern"), C.T(20, 200), constraint_p=0.3, nonfinite_p=1.0)
     localgen.add_powell_to(chk, C.rng("C15-powell"), C.T(20, 200), constraint_p=0.3, nonfinite_p=1.0)
     localgen.add_simplex_to(chk, C.rng("C15-simplex"), C.T(20, 200), constraint_p=0.3, nonfinite_p=1.0)
+    localgen.add_direct_to(chk, C.rng("C15-direct"), C.T(20, 200), constraint_p=0.3, nonfinite_p=1.0)
     scen.shutdown_manager()
     return chk.finish()
